@@ -2,7 +2,7 @@
    reads is bounded by the configured limits plus the size of one read; complete lines over their
    limit are rejected; a folded field value never exceeds max_field_size. *)
 From Coq Require Import ZifyBool ZifyN.
-From AV Require Import Lib.Base Lib.BytesX Generated.HttpGen Generated.HttpRespGen Model.Http Model.HttpResp
+From AV Require Import Lib.Base Lib.BytesX Lib.Utf8Decode Generated.HttpGen Generated.HttpRespGen Model.Http Model.HttpResp
   Proofs.HttpSegBase Proofs.HttpLimits Proofs.HttpRespBase Proofs.HttpRespChunk Proofs.HttpRespSeg.
 Ltac Zify.zify_post_hook ::= Z.to_euclidean_division_equations.
 Open Scope N_scope.
@@ -188,24 +188,24 @@ Proof.
     unfold lenN in *. lia. }
   destruct xk as [|x0 xk'].
   { cbn [rstep_f] in Hs. inversion Hs; subst. unfold rbounded. rewrite Htk.
-    repeat split; [unfold lenN; cbn; lia|assumption|assumption|assumption]. }
+    split; [|split; [|split]]; [unfold lenN; cbn; lia|assumption|assumption|assumption]. }
   cbn [rstep_f] in Hs. fold lim in Hs. unfold rpwf in Hpk.
   destruct (rpayload sk) as [p|] eqn:Ep.
   - destruct (rfeed_payload lim p (x0 :: xk') ek) as [p' e1|rest e1|e e1] eqn:Ef; [|discriminate|].
     2:{ rewrite rfatal_all in Hs. discriminate. }
     inversion Hs; subst. unfold rbounded. cbn [rtail rlines rpayload]. rewrite Htk.
-    repeat split; [unfold lenN; cbn; lia|assumption|assumption|].
+    split; [|split; [|split]]; [unfold lenN; cbn; lia|assumption|assumption|].
     destruct Hbk as [_ Hbt].
     eapply rfeed_payload_need_bounds; eassumption.
   - destruct (rupgraded sk).
     { inversion Hs; subst. unfold rbounded. rewrite Htk, Ep.
-      repeat split; [unfold lenN; cbn; lia|assumption|assumption]. }
-    unfold lim in Hs. rewrite Hq in Hs. change ((0 <? 0) && (0 <=? rin_flight sk)) with false in Hs. cbv iota in Hs.
+      split; [|split; [|split]]; [unfold lenN; cbn; lia|assumption|assumption|exact I]. }
+    rewrite Hq in Hs. change ((0 <? 0) && (0 <=? rin_flight sk)) with false in Hs. cbv iota in Hs.
     destruct (find_lf (x0 :: xk')) as [[raw rest]|].
     { exfalso. repeat (dmH Hs; try discriminate). }
     dmH Hs; [discriminate|]. inversion Hs; subst. unfold rbounded. cbn [rtail rlines rpayload].
-    pose proof (limit_le_big (c_lim cfg) (rlines sk)).
-    repeat split; [fold lim; unfold lim; lia|assumption|assumption].
+    pose proof (limit_le_big lim (rlines sk)).
+    split; [|split; [|split]]; [lia|assumption|assumption|exact I].
 Qed.
 
 Fixpoint maxlen (segs : list bytes) : N :=
@@ -216,7 +216,7 @@ Proof. unfold pbounded. intros H [A B]. split; [lia|exact B]. Qed.
 
 Lemma rbounded_mono lim n m s : n <= m -> rbounded lim n s -> rbounded lim m s.
 Proof.
-  unfold rbounded. intros H (A & B & C & D). repeat split; try assumption.
+  unfold rbounded. intros H (A & B & C & D). split; [|split; [|split]]; try assumption.
   destruct (rpayload s); [eapply pbounded_mono; eassumption|exact I].
 Qed.
 
@@ -270,35 +270,20 @@ Proof.
 Qed.
 
 (* ------------------------------------------------------------------ folded field values *)
-Lemma lstrip_ows_len s : lenN (lstrip_ows s) <= lenN s.
-Proof.
-  induction s as [|c s IH]; cbn [lstrip_ows]; [lia|]. destruct (is_ows c); [rewrite lenN_cons; lia|lia].
-Qed.
+Lemma lstrip_ows_l_len s : lenN (lstrip_ows_l s) <= lenN s.
+Proof. unfold lenN, lstrip_ows_l. pose proof (lstrip_by_len is_ows s). lia. Qed.
 
-Lemma strip_ows_len s : lenN (strip_ows s) <= lenN s.
-Proof.
-  unfold strip_ows, rstrip_ows. unfold lenN. rewrite rev_length.
-  pose proof (lstrip_ows_len (rev (lstrip_ows s))) as H1. pose proof (lstrip_ows_len s) as H2.
-  unfold lenN in *. rewrite rev_length in H1. lia.
-Qed.
-
-Lemma split_first_aux_len sep : forall x acc l r, split_first_aux sep acc x = Some (l, r) ->
-  (length l + length r < length acc + length x + 1)%nat.
-Proof.
-  induction x as [|c x IH]; intros acc l r H; [discriminate|]. cbn [split_first_aux] in H.
-  destruct (c =? sep).
-  - inversion H; subst. rewrite rev_length. cbn [length]. lia.
-  - apply IH in H. cbn [length] in *. lia.
-Qed.
+Lemma strip_ows_l_len s : lenN (strip_ows_l s) <= lenN s.
+Proof. unfold lenN, strip_ows_l. pose proof (strip_by_len is_ows s). lia. Qed.
 
 Lemma parse_field_name_len line n v : parse_field_name line = QOk (n, v) -> lenN v <= lenN line.
 Proof.
-  unfold parse_field_name. destruct (split_first 58 line) as [[bn bv]|] eqn:E; [|discriminate].
-  destruct bn as [|f0 bn]; [discriminate|]. repeat (dmH H0; try discriminate).
+  unfold parse_field_name. destruct (split_byte 58 line) as [[bn bv]|] eqn:E; [|discriminate].
+  destruct bn as [|f0 bn]; [discriminate|].
   destruct (is_ows f0 || is_ows (last (f0 :: bn) 0)); [discriminate|].
   destruct (negb (forallb tchar (f0 :: bn))); [discriminate|].
-  intro H. inversion H; subst. apply split_first_aux_len in E. pose proof (lstrip_ows_len bv).
-  unfold lenN in *. cbn [length] in *. lia.
+  intro H. inversion H; subst. apply split_byte_shape in E. subst line. pose proof (lstrip_ows_l_len bv).
+  unfold lenN in *. rewrite app_length. cbn [length] in *. lia.
 Qed.
 
 Definition cur_ok (mf : N) (c : option cur) : Prop :=
@@ -306,8 +291,8 @@ Definition cur_ok (mf : N) (c : option cur) : Prop :=
 
 Lemma finish_field_len mf cu kv : cur_ok mf (Some cu) -> finish_field cu = QOk kv -> lenN (snd kv) <= mf.
 Proof.
-  unfold finish_field, cur_ok. intros [A B] H. destruct (existsb lax_value_forbidden (strip_ows (cu_value cu))); [discriminate|].
-  inversion H; subst. cbn [snd]. pose proof (strip_ows_len (cu_value cu)). lia.
+  unfold finish_field, cur_ok. intros [A B] H. destruct (existsb lax_value_forbidden (strip_ows_l (cu_value cu))); [discriminate|].
+  inversion H; subst. cbn [snd]. pose proof (strip_ows_l_len (cu_value cu)). lia.
 Qed.
 
 Lemma parse_fields_lax_bound mf : forall lines c acc hs,
@@ -344,4 +329,4 @@ Qed.
 Theorem rfolded_value_bound mf lines hs :
   Forall (fun l => lenN l <= mf) lines -> parse_headers_lax mf lines = QOk hs ->
   Forall (fun kv : bytes * bytes => lenN (snd kv) <= mf) hs.
-Proof. intros Hl H. eapply parse_fields_lax_bound; [exact Hl|exact I|constructor|exact H]. Qed.
+Proof. intros Hl H. exact (parse_fields_lax_bound mf lines None [] hs Hl I (Forall_nil _) H). Qed.
